@@ -125,7 +125,7 @@ static void gcm_case(const gcmfam_t *f, uint64_t c, int stream, int thorough)
                         if (!want_route[route]) continue;
                         uint8_t *kdraw = A(sizeof(struct isal_gcm_key_data) + 64, 64, 0);
                         uint8_t *kd = kdraw + 16 * rng_below(&r, 4);
-                        uint8_t *ctx = A(sizeof(struct isal_gcm_context_data), 16, 0);
+                        uint8_t *ctx = A(sizeof(struct isal_gcm_context_data), 16, 8 * ((c + (uint64_t) route) & 1));       /* the context type is 8-byte aligned, not 16 */
                         rng_fill(&r, kdraw, sizeof(struct isal_gcm_key_data) + 64); rng_fill(&r, ctx, sizeof(struct isal_gcm_context_data));
                         LABEL("gcm%d %s %s key setup", ks_bits2[ks], f->name, route_name[route]);
                         fill_keydata(f, ks, route, key, kd, &r);
@@ -527,7 +527,7 @@ static void keyexp_cases(uint64_t c)
         rng_fill(&r, key, 32);
         if (c % 64 == 0) memset(key, (int) (c / 64), 32);
         arena_reset(&r, 0);
-        uint8_t *k = A(32, 16, rng_below(&r, 16)), *e = A(240, 16, 0), *d = A(240, 16, 0);
+        uint8_t *k = A(32, 16, rng_below(&r, 16)), *e = A(240, 16, c % 3 == 0 ? 0 : rng_below(&r, 16)), *d = A(240, 16, c % 3 == 0 ? 0 : rng_below(&r, 16));  /* the key-expansion API states no alignment for the schedules */
         memcpy(k, key, 32);
         for (int ks = 0; ks < 3; ks++) {
                 ref_aes_t a; ref_aes_expand(&a, key, ks_bits3[ks]);
